@@ -1,6 +1,7 @@
 package filecheck
 
 import (
+	"bytes"
 	"encoding/binary"
 	"fmt"
 	"time"
@@ -195,6 +196,13 @@ func runHeaderCase(c *core.Case) *core.Result {
 		binary.LittleEndian.PutUint32(next[offChecksum:], HeaderChecksum(next))
 		for cut := 1; cut < HdrSize; cut++ {
 			cut := cut
+			if bytes.Equal(b.img[off+cut:off+HdrSize], next[cut:]) {
+				// the bytes behind the cut are the same in the old and in the new
+				// header (e.g. the last checksum byte): this "tear" is the complete
+				// header of a commit whose pages are not in the image, not a damage
+				res.Add("tears_identical_to_complete_write", 1)
+				continue
+			}
 			if !run(fmt.Sprintf("slot %d torn at byte %d", slot, cut), func(img []byte) { copy(img[off:], next[:cut]) }) {
 				return done()
 			}
